@@ -13,7 +13,7 @@ unlinked only by the accept task on its exit, never on an error path of bind); t
 from ..sym import show, walk_expr
 from ..common import short
 from .. import pathq
-from . import acc
+from . import acc, hs
 
 EXPLANATION = __doc__
 PER_CONFIG = True
@@ -25,6 +25,11 @@ RULES = {
     "R18.3": "unbind: remove(&endpoint); miss -> NoSuchBind, no effect; hit -> await shutdown of that handle, nothing else",
     "R18.4": "own stop channel + own task per bind; failed bind effect-free; unlink only in the accept task",
 }
+
+
+def is_accept_poll(f, x):
+    """x is the awaited result of the listener set-up (the transport dispatcher or a per-transport function), found by signature"""
+    return any(hs.is_poll_of_role(f, x, r) for r in ("accept_dispatch", "accept_tcp", "accept_ipc"))
 
 
 def co(f, suffix):
@@ -44,24 +49,24 @@ def run(ctx, f, rep):
             ins = [(i, ev) for i, ev in pathq.calls(p, "insert") if "HashMap" in ev.name and pathq.mentions_call(ev.args[0], lambda y: short(y[1]) == "binds") is not None]
             lst = [(i, ev) for i, ev in pathq.calls(p, "try_send") if len(ev.args) > 1 and ev.args[1][0] == "agg" and ev.args[1][3] == "Listening"]
             rk = pathq.ret_kind(p)
-            accepted = pathq.ok_decided(p, lambda x: pathq.is_poll_of(x, "begin_accept"))
+            accepted = pathq.ok_decided(p, lambda x: is_accept_poll(f, x))
             if rk == "Ok":
                 nok += 1
-                resolved = pathq.mentions_call(p.ret, lambda y: pathq.is_poll_of(y, "begin_accept"))
+                resolved = pathq.mentions_call(p.ret, lambda y: is_accept_poll(f, y))
                 okk = len(ins) == 1 and accepted and resolved is not None
                 same = False
                 if okk:
                     k = ins[0][1].args[1]
-                    kr = pathq.mentions_call(k, lambda y: pathq.is_poll_of(y, "begin_accept"))
+                    kr = pathq.mentions_call(k, lambda y: is_accept_poll(f, y))
                     h = ins[0][1].args[2]
-                    hr = pathq.mentions_call(h, lambda y: pathq.is_poll_of(y, "begin_accept"))
+                    hr = pathq.mentions_call(h, lambda y: is_accept_poll(f, y))
                     # key = clone(.0 of the result), handle = .1 of the same result, returned = .0
                     same = kr == resolved and hr == resolved
                 rep.check(okk and same, "R18.1", "R18.1|insert-resolved-endpoint",
                           "a successful bind adds exactly the endpoint begin_accept resolved (with its stop handle) and returns that endpoint (inserts=%d, begin_accept Ok=%s, same result=%s)" % (len(ins), accepted, same), b.loc())
                 for i, ev in lst:
                     a = ev.args[1]
-                    rep.check(pathq.mentions_call(a, lambda y: pathq.is_poll_of(y, "begin_accept")) is not None and accepted, "R18.1", "R18.1|listening-event",
+                    rep.check(pathq.mentions_call(a, lambda y: is_accept_poll(f, y)) is not None and accepted, "R18.1", "R18.1|listening-event",
                               "Listening carries the resolved endpoint and is emitted only after begin_accept succeeded", b.loc(ev.bb))
             elif rk == "Err":
                 nerr += 1
@@ -69,7 +74,7 @@ def run(ctx, f, rep):
         rep.floor("R18.1", "Ok exits of bind", nok, 1)
         rep.floor("R18.1", "Err exits of bind", nerr, 2)
     # ---- R18.2
-    t = co(f, "transport::tcp::begin_accept::{closure#0}")
+    t = hs.co(f, "accept_tcp")
     if t is None:
         rep.bad("R18.2", "R18.2|anchor", "tcp::begin_accept not found (anchor-missing)")
     else:
@@ -126,8 +131,8 @@ def run(ctx, f, rep):
                 rep.check(awaited, "R18.3", "R18.3|hit-awaits-stop", "unbind returns only after the accept task has been joined", u.loc())
         rep.floor("R18.3", "unbind hit and miss exits", len([k for k, v in seen.items() if v]), 2)
     # ---- R18.4
-    for suffix, label in (("transport::tcp::begin_accept::{closure#0}", "tcp"), ("transport::ipc::begin_accept::{closure#0}", "ipc")):
-        g = co(f, suffix)
+    for role, label in (("accept_tcp", "tcp"), ("accept_ipc", "ipc")):
+        g = hs.co(f, role)
         if g is None:
             rep.bad("R18.4", "R18.4|%s|anchor" % label, "%s::begin_accept not found (anchor-missing)" % label)
             continue
